@@ -35,6 +35,7 @@ func runC20(p *Prog, r *Report) {
 		r.Anchor("R20.1-state", "cedar.PolicySet struct")
 		return
 	}
+	jsonEmittersQuoteAsJSON(p, r, "R20.9-json-quoting", 15)
 	// one place holds the policies: fields that cannot hold a policy or an id (a mutex, a flag, a counter) are not the
 	// rule's business; a second field that can (a slice of entries next to the map, an index, a cache) is a second copy of
 	// the state that every mutator would have to keep in step
